@@ -80,7 +80,7 @@ class C12Engine(SimEngine):
 
 
 def _engine() -> C12Engine:
-    prof = profile(p_worker_raise=0.45, p_cb_raise=0.3, p_callfault=0.25, p_cb=0.7, sizes=[1, 2, 2, 3, None], p_iter_raise=0.08,
+    prof = profile(p_worker_raise=0.45, p_cb_raise=0.3, p_callfault=0.25, p_cb=0.7, sizes=[1, 2, 2, 3, None], p_iter_raise=0.08, p_bad_return=0.05,
                    ops={"flush": 2, "close": 0, "spawn": 9, "gate": 8, "cancel": 1, "cancel_group": 0.5, "lock": 0.2, "stop": 0.5},
                    end_with_close=0.5)
     return C12Engine(
